@@ -236,7 +236,8 @@ class RandomLineAccessFile(BaseRandomLineAccessFile[str]):
         """
 
         if self.file is None:
-            self.file = open(self.path_to, "r")
+            # newline="\n": lines end only at "\n" (as in the offset index) and "\r" stays part of the content
+            self.file = open(self.path_to, "r", newline="\n")
             self._opened_in_process_with_id = os.getpid()
 
         return self
